@@ -453,4 +453,41 @@ theorem shapeRow_length (n w : Nat) (null : Str) (r : List (Option Str)) (h : r.
     (shapeRow n w null r).length = n := by
   simp [shapeRow, h]; omega
 
+
+/-! ### digits -/
+
+theorem isDig_props (c : Char) (h : isDig c = true) :
+    notSD c = true ∧ isSign c = false ∧ c ≠ '.' ∧ c ≠ 'e' ∧ c ≠ 'E' := by
+  simp only [isDig, Bool.and_eq_true, decide_eq_true_eq] at h
+  obtain ⟨h1, h2⟩ := h
+  have hv1 : 48 ≤ c.toNat := h1
+  have hv2 : c.toNat ≤ 57 := h2
+  refine ⟨?_, ?_, ?_, ?_, ?_⟩
+  · simp only [notSD, Bool.not_eq_true', Bool.or_eq_false_iff, decide_eq_false_iff_not]
+    refine ⟨⟨⟨?_, ?_⟩, ?_⟩, ?_⟩ <;> (intro e; subst e; revert hv1 hv2; decide)
+  · simp only [isSign, Bool.or_eq_false_iff, decide_eq_false_iff_not]
+    refine ⟨?_, ?_⟩ <;> (intro e; subst e; revert hv1 hv2; decide)
+  all_goals (intro e; subst e; revert hv1 hv2; decide)
+
+theorem takeWhile_all {p : Char → Bool} (m : Str) (d : Char) (r : Str)
+    (hm : ∀ c ∈ m, p c = true) (hd : p d = false) :
+    (m ++ d :: r).takeWhile p = m ∧ (m ++ d :: r).dropWhile p = d :: r := by
+  induction m with
+  | nil => simp [List.takeWhile, List.dropWhile, hd]
+  | cons c t ih =>
+    have hc : p c = true := hm c (by simp)
+    have := ih (fun x hx => hm x (by simp [hx]))
+    simp [List.takeWhile, List.dropWhile, hc, this]
+
+theorem takeWhile_all_end {p : Char → Bool} (m : Str) (hm : ∀ c ∈ m, p c = true) :
+    m.takeWhile p = m ∧ m.dropWhile p = [] := by
+  induction m with
+  | nil => simp
+  | cons c t ih =>
+    have hc : p c = true := hm c (by simp)
+    have := ih (fun x hx => hm x (by simp [hx]))
+    simp [List.takeWhile, List.dropWhile, hc, this]
+
+
+
 end Pharmpy.C13
